@@ -16,8 +16,10 @@
       library); `toyR_lawful` shows the hypothesis is satisfiable.  It is true of Go for the UTC location
       only: `zone_east_not_lawful` / `zone_east_date_lost` and `zone_lmt_not_lawful` show what goes wrong
       for a writer that formats in a zone east of Greenwich or in a zone whose offset has seconds — which
-      is what /repo's writers do when `time.Local` is such a zone (open finding C04 `date-zone`, caught
-      on the real code by the `zone` oracle of the lex engine);
+      is what /repo's writers DID when `time.Local` was such a zone, until /repo 678b3ea (they now call
+      `date.UTC().Format`, so the hypothesis concerns UTC whatever `time.Local` is; finding
+      `xml:zone:decode-error`, fixed; a revert is caught on the real code by the `zone` oracle of the lex
+      engine);
     * `H : Hints` — what the caller of the reader tells it about enumerations and masks, POSITION BY
       POSITION (a function of the path of child indices and of the tag); the generic decoder
       `ttlv.Value` is `noHints`, a caller that looks at the tag only is `Hints.ofTag f`.  `xml_roundtrip`
@@ -541,7 +543,7 @@ tree, so a second hop changes nothing (`xml_fixpoint_full`, `json_fixpoint_full`
 carried over to the other text encoding (`xml_to_json`, `json_to_xml`).
 
 This holds of the readers since /repo a1c0e70 (tag text `0x…` = non-zero 24-bit `ParseUint`) and df9dac3
-(the year test after `.Local()`).  The OLD readers — `oldTags := true`, resp. an `Rfc3339` whose `inYears`
+(the year test on the parsed instant; since 678b3ea it is made after `.UTC()`, the location the writers format in).  The OLD readers — `oldTags := true`, resp. an `Rfc3339` whose `inYears`
 accepts everything — violate it: `old_tag_fixpoint_false`, `old_date_fixpoint_false`. -/
 
 theorem gen_tag_vals : (Gen.tagByName.all fun p => decide (p.2 < 16777216)) = true := by decide +kernel
@@ -706,12 +708,13 @@ example : isOk (xmlRead genTables toyR noHints altXml) = true ∧ stableXml genT
     isOk (xmlRead genTables toyR noHints negTagXml) = true ∧ stableXml genTables toyR negTagXml = true := by
   decide +kernel
 
-/-! ### the RFC 3339 hypothesis and the writer's time zone (open finding C04 `date-zone`)
+/-! ### the RFC 3339 hypothesis and the writer's time zone (finding `xml:zone:decode-error`, fixed in /repo 678b3ea)
 
 `Rfc3339.Lawful` is a statement about the pair (`Format` in the location the writer formats in, `Parse`).
-Go's `time` satisfies it for UTC.  /repo's writers format in the location of the value, which for a value
-decoded from binary TTLV is `time.Local`; two stand-ins show what that does on a machine whose zone is not
-UTC — both effects are observed on the real code by the lex engine's `zone` oracle:
+Go's `time` satisfies it for UTC, and /repo's writers format in UTC since 678b3ea.  BEFORE that commit they
+formatted in the location of the value, which for a value decoded from binary TTLV is `time.Local`; two
+stand-ins show what that did on a machine whose zone is not UTC — both effects were observed on the real code
+by the lex engine's `zone` oracle, which keeps watching for a revert:
   * east of Greenwich the last hours of year 9999 are local year 10000: a five-digit year, which `Parse`
     rejects — the library cannot read its own document (`zone_east_date_lost`);
   * a zone whose offset has seconds (every zone before standard time: Tokyo +09:18:59 until 1887, Paris
